@@ -158,6 +158,18 @@ pub fn stride() -> (u64, u64) {
     (k, s)
 }
 
+/// sanitizer stages: additional thinning of heavy inner loops (VERIF_INNER=k keeps every k-th
+/// element, offset by the shard); 1 = keep everything
+pub fn inner_keep(i: usize) -> bool {
+    thread_local! {
+        static INNER: (u64, u64) = {
+            let k = std::env::var("VERIF_INNER").ok().and_then(|v| v.parse::<u64>().ok()).unwrap_or(1).max(1);
+            (k, stride().1 % k)
+        };
+    }
+    INNER.with(|(k, o)| *k == 1 || (i as u64) % *k == *o)
+}
+
 /// Tells a worker whether its thread must be retired (fresh thread-locals) before continuing.
 #[derive(PartialEq, Eq, Clone, Copy)]
 pub enum After {
